@@ -17,7 +17,11 @@ Out(t) ==
   [depends |-> t.v \in FSCirc(p),
    pure |-> pure,
    pg |-> IF pure THEN PureGrad(p, [ty |-> q.ty, layers |-> AsPure(q).layers], t.v) ELSE [A |-> <<>>, B |-> <<>>],
-   mg |-> MixedGrad(p, q, t.v)]
+   mg |-> MixedGrad(p, q, t.v),
+   \* both partial derivatives, for the jacobian
+   mgx |-> MixedGrad(p, q, "x"), mgy |-> MixedGrad(p, q, "y"),
+   pgx |-> IF pure THEN PureGrad(p, [ty |-> q.ty, layers |-> AsPure(q).layers], "x") ELSE [A |-> <<>>, B |-> <<>>],
+   ndom |-> Len(q.ty)]
 Verdicts == LET TR == ndJsonDeserialize(IOEnv.TRACE_FILE) IN [l \in 1..Len(TR) |-> Out(TR[l])]
 ASSUME ndJsonSerialize(IOEnv.OUT, Verdicts)
 TVInit == PInit
